@@ -508,7 +508,8 @@ pub const F9_STMTS: [&str; 40] = [
     "r = arr[2];", "arr[X]++;", "arr[X] += a;", "s = 0x1234;", "s++;", "s--;", "s += a;", "s += t;", "s <<= 1;", "s >>= 1;", "r = s >> 8;", "r = s;", "if (s == t) r = 1;",
 ];
 
-pub const F9_STMTS2: [&str; 22] = [
+pub const F9_STMTS2: [&str; 28] = [
+    "p++;", "p--;", "++p;", "--p;", "p = arr;", "p += 2;",
     "sarr[X] = s;", "s = sarr[X];", "sarr[Y] = s;", "s = sarr[Y];", "sarr[1] = t;", "sarr[X]++;", "s = sarr[Y] + 1;", "sarr[Y] += a;",
     "t = s;", "s = t + 1;", "s = a;", "s -= t;", "s &= 0xff;", "s |= t;", "if (s < t) r = 1; else r = 2;", "if (s) r = 1;", "r = g(a);", "h(a, b);", "load(a);", "store(a);", "a = arr[X] + b;", "arr[X] = arr[Y];",
 ];
@@ -518,8 +519,8 @@ pub fn f9_placements() -> Vec<(&'static str, Vec<&'static str>, String)> {
     let mut v = Vec::new();
     let fns = "char g(char v) { return v + 1; }\nvoid h(char v, char w) { r = v + w; }\n";
     // which of a, b, r, s, t, arr get the qualifier: masks over 6 variables (selected subsets)
-    let names = ["a", "b", "r", "s", "t", "arr", "sarr"];
-    let masks: Vec<u32> = vec![0b0000000, 0b0000001, 0b0000010, 0b0000100, 0b0000011, 0b0001000, 0b0011000, 0b0100000, 0b0100001, 0b1111111, 0b0011001, 0b0000101, 0b1000000, 0b1001000];
+    let names = ["a", "b", "r", "s", "t", "arr", "sarr", "p"];
+    let masks: Vec<u32> = vec![0b00000000, 0b00000001, 0b00000010, 0b00000100, 0b00000011, 0b00001000, 0b00011000, 0b00100000, 0b00100001, 0b11111111, 0b00011001, 0b00000101, 0b01000000, 0b01001000, 0b10000000, 0b10100000];
     for (scheme, opt, q) in [("zp", vec![], ""), ("superchip", vec![], "superchip"), ("3E", vec!["-D__3E__"], "bank1"), ("3EP", vec!["-D__3E_PLUS__"], "bank1")] {
         for m in &masks {
             if scheme == "zp" && *m != 0 {
@@ -535,6 +536,7 @@ pub fn f9_placements() -> Vec<(&'static str, Vec<&'static str>, String)> {
                     "s" | "t" => d.push_str(&format!("{}short {};\n", qq, n)),
                     "arr" => d.push_str(&format!("{}unsigned char arr[4];\n", qq)),
                     "sarr" => d.push_str(&format!("{}short sarr[4];\n", qq)),
+                    "p" => d.push_str(&format!("{}char *p;\n", qq)),
                     _ => d.push_str(&format!("{}unsigned char {};\n", qq, n)),
                 }
             }
@@ -556,6 +558,10 @@ pub fn f9(tier: Tier) -> Vec<SemCase> {
             // pairs of statements (second from a core subset)
             for s1 in &stmts {
                 for s2 in ["a = b;", "r = a + b;", "a++;", "arr[X] = a;", "s++;", "s += a;", "if (a) r = 1;"] {
+                    // keep subscripts in bounds: no index register loaded from an unconstrained variable
+                    if (*s1 == "X = a;" || *s1 == "Y = a;") && s2.contains("arr[") {
+                        continue;
+                    }
                     bodies.push(format!("{} {}", s1, s2));
                 }
             }
